@@ -151,9 +151,21 @@ def goal_tail(module, beh):
     return beh + tail
 
 
+def goal_export_variants(behs, glens, n):
+    """For each goal behaviour (with its tail): a genesis export + re-import inserted after the Commit of the block in
+    which the goal step happened (and after the next n-1 Commits); at least one block follows on both chains."""
+    out = []
+    for b, gl in zip(behs, glens):
+        commits = [i for i, ev in enumerate(b) if ev["a"] == "Commit" and i >= gl - 1]
+        for i in commits[:-1][:n]:
+            out.append(b[:i + 1] + [{"a": "ExportImport"}] + b[i + 1:])
+    return out
+
+
 def goal_schedules(goals, module, per_label):
     """Up to per_label shortest behaviours per label, deduplicated, each with its tail."""
     out, seen, used = [], set(), {}
+    goal_schedules.glens = []
     for label in sorted(goals):
         n = 0
         for beh in goals[label]:
@@ -166,6 +178,7 @@ def goal_schedules(goals, module, per_label):
                 continue
             seen.add(key)
             out.append(goal_tail(module, beh))
+            goal_schedules.glens.append(len(beh))
             used[label] = used.get(label, 0) + 1
             n += 1
             if n >= per_label:
